@@ -25,6 +25,47 @@ def is_normalised(f, node, d_norm, depth=0):
     return False
 
 
+_SHAPES = {}
+
+
+def _printed_node(m, ctx, f, other):
+    """`str(V[i])` / `str(V)` where V is bound once, to the result of a matcher helper whose element i is a node (or None) in every
+    shape the shape engine derives: what is compared is the text that node prints, not the input"""
+    from sa import shapes as SH
+    if not (isinstance(other, ast.Call) and isinstance(other.func, ast.Name) and other.func.id == "str" and len(other.args) == 1):
+        return False
+    e = other.args[0]
+    idx = None
+    if isinstance(e, ast.Subscript) and isinstance(A.const(e.slice, None), int):
+        idx, e = A.const(e.slice), e.value
+    if not isinstance(e, ast.Name):
+        return False
+    defs = [n.value for n in A.body_nodes(f.node) if isinstance(n, ast.Assign) and len(n.targets) == 1 and isinstance(n.targets[0], ast.Name)
+            and n.targets[0].id == e.id]
+    if len(defs) != 1 or not isinstance(defs[0], ast.Call) or not isinstance(defs[0].func, ast.Attribute) or not isinstance(defs[0].func.value, ast.Name):
+        return False
+    k = m.key(defs[0].func.value.id, f.module)
+    callee = m.method(k, defs[0].func.attr) if k else None
+    if callee is None:
+        return False
+    if id(m) not in _SHAPES:
+        _SHAPES[id(m)] = SH.Shapes(m, ctx.cg)
+    ss = _SHAPES[id(m)].of_func(callee)
+    if ss.open or not ss.shapes or idx is None:
+        return False
+
+    def node_kind(kd):
+        if kd == "none":
+            return True
+        if isinstance(kd, tuple) and kd and kd[0] == "node":
+            return True
+        if isinstance(kd, tuple) and kd and kd[0] == "alt":
+            return all(node_kind(x) for x in kd[1])
+        return False
+    return all(len(sh) > idx and node_kind(sh[idx]) for sh in ss.shapes)
+
+
+
 def c04_rules(m):
     from sa.callgraph import CallGraph
     from rules import C06
@@ -114,6 +155,8 @@ def c04_rules(m):
                         ok = is_normalised(f, last.value, norm)
                 if not ok and any(isinstance(x, ast.Attribute) and x.attr in ("children", "items") for x in ast.walk(other)):
                     ok = True   # a field of an already-built node: canonicalised by that node's own matcher
+                if not ok and _printed_node(m, ctx, f, other):
+                    ok = True   # str(<node>): the printed text of a node a matcher built, canonicalised by that node's class
                 # single characters used as format/kind letters in numeric/format descriptors are compared after upper() upstream
                 r.ob(ok, "%s: `%s`" % (f.qualname, A.text(n)[:60]) if n_cmp % 15 == 1 else None)
                 if not ok:
